@@ -161,6 +161,8 @@ func readCollection(source []byte, injectorFactory func(int) (injector, error), 
 	total := len(source)
 	if size, err := readCollectionSize(reader, version); err != nil {
 		return err
+	} else if size < 0 {
+		return collectionSizeNegative(size)
 	} else if inj, err := injectorFactory(size); err != nil {
 		return err
 	} else {
